@@ -7,7 +7,7 @@ from hypothesis import strategies as st
 
 from .. import hist, wire
 from ..engine import ok, require
-from ..simkit import FakeTransport, Sim, sd, service
+from ..simkit import ADDRS, FakeTransport, Sim, make_sd, sd, sd_bytes, sent_entries, service, timings
 from ..vloop import RES
 from .c08 import EPS, _ep, _ep_addr
 
@@ -16,7 +16,7 @@ RULE = (
     "cases = a SimpleService with eventgroup 1 (explicit notifications, 1..4 events) and eventgroup 2 (cyclic, interval "
     "0.5 s, 1..2 events) and scripts of client_subscribed / client_unsubscribed for 3 endpoints (IPv4 and IPv6; also "
     "subscriptions naming 0 or 2 endpoints or an unknown eventgroup, repeated subscribes and unsubscribes of endpoints that "
-    "are not subscribed), value updates, notify_once for any subset of events, and waits across cyclic rounds; steps at "
+    "are not subscribed; the same scripts also through the wire, as Subscribe / StopSubscribe datagrams to a discovery endpoint on which the service is announced), value updates, notify_once for any subset of events, and waits across cyclic rounds; steps at "
     "distinct instants, inside one iteration, or a few loop iterations after the previous step without an idle point (while a round is suspended in its address look-ups). Every datagram is decoded independently. non-trivial = >= 2 endpoints with "
     "different subscription intervals and a notification round between, or a refused subscription, or a cyclic round with "
     "a changed value; distinct = distinct case JSON"
@@ -50,7 +50,8 @@ def _step(draw):
 
 
 def strategy(tier):
-    return st.builds(lambda n1, n2, steps: {"n1": n1, "n2": n2, "steps": steps}, st.integers(1, 4), st.integers(1, 2), st.lists(_step(), min_size=1, max_size=14))
+    return st.builds(lambda n1, n2, steps, via: {"n1": n1, "n2": n2, "steps": steps, "via": via}, st.integers(1, 4), st.integers(1, 2),
+                     st.lists(_step(), min_size=1, max_size=14), st.sampled_from(["direct", "direct", "sd"]))
 
 
 def fixed_cases(tier):
@@ -64,6 +65,8 @@ def fixed_cases(tier):
         {"n1": 2, "n2": 1, "steps": [S(0, 1, d), U(1, 1, d), N(3, d), U(1, 2, d), N(3, d), S(0, 1, d), N(1, d)]},   # unsubscribe of a non-member, repeated subscribe
         {"n1": 1, "n2": 1, "steps": [S(0, 2, d), U(1, 2, d), {"op": "wait", "when": ["d", 1.2]}, U(0, 2, d), S(1, 2, ["d", 0.2]), {"op": "wait", "when": ["d", 1.2]}]},
         {"n1": 2, "n2": 1, "steps": [{"op": "badsub", "kind": k, "ep": 0, "when": d} for k in ("none", "two", "unknown-eg")] + [N(3, d), S(0, 1, d), N(3, d)]},
+        {"n1": 2, "n2": 1, "via": "sd", "steps": [S(0, 1, d), S(1, 1, d), S(1, 2, d), N(3, d), S(0, 1, d), U(0, 1, d), U(0, 1, d), N(3, d), {"op": "wait", "when": ["d", 1.2]},
+                                                  {"op": "badsub", "kind": "two", "ep": 2, "when": d}, {"op": "badsub", "kind": "none", "ep": 2, "when": d}, {"op": "badsub", "kind": "unknown-eg", "ep": 2, "when": d}, N(3, d)]},
         # membership changes while a round is suspended in its address look-ups
         *[{"n1": 2, "n2": 1, "steps": [S(0, 1, d), S(1, 1, d), S(2, 1, d), N(3, d), (U if k % 2 else S)(k % 3, 1, ["i", 1 + k // 2]), N(3, d), N(3, d)]} for k in range(6)],
     ]
@@ -99,6 +102,18 @@ def run_case(case):
             for ev in evs:
                 values[ev] = bytes([ev])
                 groups[g].values[ev] = values[ev]
+        via_sd = case.get("via") == "sd"
+        prot = None
+        if via_sd:
+            # the same scripts through the wire: the service is announced on a discovery endpoint and the subscriptions
+            # arrive as Subscribe / StopSubscribe datagrams (infinite TTL) from one SD peer per notification endpoint
+            prot = make_sd(sim, timings(SEND_COLLECTION_TIMEOUT=0, CYCLIC_OFFER_DELAY=1, ANNOUNCE_TTL=3))
+            svc.start_announce(prot.announcer)
+            prot.announcer.start()
+            sim.advance(0.01)
+        sd_sess = collections.Counter()
+        sd_seen = [0]
+        sd_expect = collections.Counter()    # (peer, eventgroup, ttl) acks expected from this group
         subs = {1: set(), 2: set()}          # model: endpoint indexes
         since = {}                           # (eg, ep) -> time subscribed (for the cyclic liveness clause)
         seen = [0]
@@ -113,7 +128,39 @@ def run_case(case):
         def execute(k, s):
             op = s["op"]
             in_group[0] = True
-            if op == "sub":
+            if via_sd and op in ("sub", "unsub", "badsub"):
+                ep = s.get("ep", 0) % len(EPS)
+                g = s.get("eg", 1) if s.get("eg", 1) in (1, 2) else 1
+                peer = ADDRS[ep]
+                sd_sess[peer] += 1
+                eps = [[EPS[ep][0], EPS[ep][1], 17]]
+                ttl = 0xFFFFFF
+                if op == "badsub":
+                    kind = s.get("kind", "none")
+                    feats["refused"] += 1
+                    if kind == "none":
+                        eps = []
+                    elif kind == "two":
+                        eps = eps + [[EPS[(ep + 1) % len(EPS)][0], EPS[(ep + 1) % len(EPS)][1], 17]]
+                    else:
+                        g = 9
+                    sd_expect[(peer, g, 0)] += 1
+                elif op == "sub":
+                    sd_expect[(peer, g, ttl)] += 1
+                    if ep not in subs[g]:   # a repeated Subscribe is a refresh: the listener is not asked again, no initial notification
+                        subs[g].add(ep)
+                        since.setdefault((g, ep), sim.now)
+                        group_changes["members"].add((g, ep))
+                        for ev in events[g]:
+                            group_changes.setdefault("initial", []).append((ep, ev, values[ev]))
+                else:
+                    ttl = 0
+                    subs[g].discard(ep)
+                    since.pop((g, ep), None)
+                    group_changes["members"].add((g, ep))
+                entry = {"t": "sub" if ttl else "stopsub", "svc": SID, "inst": 1, "major": MAJOR, "eg": g, "ttl": ttl, "eps": eps}
+                prot.datagram_received(sd_bytes([entry], sd_sess[peer], reboot=True), peer, False)
+            elif op == "sub":
                 ep, g = s["ep"] % len(EPS), s["eg"] if s["eg"] in (1, 2) else 1
                 try:
                     svc.client_subscribed(_subscription([ep], g), ("10.0.0.99", 30490))
@@ -157,6 +204,13 @@ def run_case(case):
                 eg1.notify_once(evs)
 
         def after_group(i0, i1):
+            if via_sd:
+                acks = collections.Counter((e["dest"], e["eventgroup"], e["ttl"]) for e in sent_entries(prot.transport, sd_seen[0]) if e["type"] == wire.SUBSCRIBE_ACK)
+                sd_seen[0] = len(prot.transport.sent)
+                if i0 >= 0:
+                    require(acks == sd_expect, "C17.sd-acknowledgement",
+                            lambda: f"steps {i0}..{i1 - 1}: SubscribeAck entries (peer, eventgroup, ttl) {dict(acks)}, expected {dict(sd_expect)} (a subscription naming other than exactly one endpoint, or an unknown eventgroup, is refused)")
+                    sd_expect.clear()
             # explicit rounds: membership / values may have changed later within the same iteration
             for members, evs, vals in group_changes.get("rounds", []):
                 for ep in set(members) | subs[1] | {e_ for (g_, e_) in group_changes["members"] if g_ == 1}:
@@ -235,4 +289,4 @@ def run_case(case):
         require(not errs, "C17.loop-error", lambda: str(errs[:2]))
         if cyc_rounds:
             feats["cyclic-round"] += 1
-    return ok(bool(feats) and seen[0] > 0, [f"{k}={'1+' if v else 0}" for k, v in sorted(feats.items())] + [f"events={n1}+{n2}"])
+    return ok(bool(feats) and seen[0] > 0, [f"{k}={'1+' if v else 0}" for k, v in sorted(feats.items())] + [f"events={n1}+{n2}", f"via={'sd' if via_sd else 'direct'}"])
